@@ -2,8 +2,12 @@ package props
 
 import (
 	"bytes"
+	"context"
 	"fmt"
+	"io"
+	iofs "io/fs"
 	"os"
+	"syscall"
 	"path/filepath"
 	"testing"
 
@@ -132,6 +136,8 @@ func checkBuild(c *mon.Case, b c16Build) {
 			fs := b.Base.Clone()
 			installOrderHook(c, fs, fmt.Sprintf("%s with %s #%d failing", b.Name, p.kind, k))
 			p.set(fs, k)
+			// rotate the error kind: a plain error, and kinds a wrapper might take for success or end of input
+			fs.FailErr = []error{nil, &iofs.PathError{Op: "open", Path: "/blocks/x", Err: syscall.EEXIST}, io.ErrShortWrite, context.Canceled, iofs.ErrExist, store.ErrNotFound{}}[k%6]
 			var fl ipld.Link
 			var ferr error
 			if !c.Guard(fmt.Sprintf("%s with %s #%d failing", b.Name, p.kind, k), func() { fl, _, ferr = b.Run(fs.LinkSystem(false)) }) {
